@@ -1,6 +1,6 @@
 module github.com/bytedance/sonic/xverif
 
-go 1.18
+go 1.21
 
 require (
 	github.com/anishathalye/porcupine v1.3.0
